@@ -412,7 +412,7 @@ def _exec_step(W, st, model, log, stats, bump, seed):
         fr = rng_of(fault["rseed"])
         only = fault.get("only")
         elig = (lambda lab: label_class(lab) == only) if only else eligible
-        fault = session.place_fault(fr, dr["events"], elig, kinds=tuple(fault.get("kinds") or ("kill", "kill", "io_error", "torn", "corrupt")))
+        fault = session.place_fault(fr, dr["events"], elig, kinds=tuple(fault.get("kinds") or ("kill", "kill", "io_error", "torn", "corrupt", "interrupt")))
         st["fault"] = fault
     before = snapshot(W.root)
     sig_before = W.tree_sig()
@@ -421,7 +421,7 @@ def _exec_step(W, st, model, log, stats, bump, seed):
     stats["steps"] += len(res["events"])
     stats.setdefault("_step_events", []).append(res["events"])
     after = snapshot(W.root)
-    fired = res["fired"] if res["fired"] and res["fired"]["kind"] in ("kill", "torn", "io_error", "corrupt") else None
+    fired = res["fired"] if res["fired"] and res["fired"]["kind"] in ("kill", "torn", "io_error", "corrupt", "interrupt") else None
     out = res["outcome"]
     status = out["ok"]["status"] if out and "ok" in out else None
     exc = out.get("exc") if out and "exc" in out else None
@@ -655,7 +655,7 @@ def shrink_candidates(plan):
             c["steps"] = [dict(s) for s in steps]
             c["steps"][i]["fault"] = None
             yield c
-            if f.get("kind") in ("torn", "io_error", "corrupt"):
+            if f.get("kind") in ("torn", "io_error", "corrupt", "interrupt"):
                 c = dict(plan)
                 c["steps"] = [dict(s) for s in steps]
                 c["steps"][i]["fault"] = {"kind": "kill", "at": f["at"], "label": f["label"]}
